@@ -32,6 +32,13 @@ pub struct Failure {
     /// engine specific replay payload (CLI scenario, schedule, range, ...)
     #[serde(default)]
     pub extra: Value,
+    /// number of failing cases this record stands for (engines may pre-aggregate by signature)
+    #[serde(default = "one")]
+    pub count: usize,
+}
+
+fn one() -> usize {
+    1
 }
 
 #[derive(Clone, Debug, Serialize, Deserialize)]
@@ -151,10 +158,10 @@ pub fn group(failures: &[Failure]) -> BTreeMap<String, (Failure, usize)> {
     for f in failures {
         match m.get_mut(&f.signature) {
             None => {
-                m.insert(f.signature.clone(), (f.clone(), 1));
+                m.insert(f.signature.clone(), (f.clone(), f.count.max(1)));
             }
             Some((rep, n)) => {
-                *n += 1;
+                *n += f.count.max(1);
                 if (f.input.len(), &f.input) < (rep.input.len(), &rep.input) {
                     *rep = f.clone();
                 }
@@ -255,7 +262,7 @@ pub fn finish(out: Outcome, example_still_fails: &dyn Fn(&KnownFinding) -> bool)
         "known_findings_seen".into(),
         json!(live.iter().map(|(e, _)| json!({"id": e.id, "cases": known_hits.get(&e.id).copied().unwrap_or(0)})).collect::<Vec<_>>()),
     );
-    cov.insert("failing_cases_total".into(), json!(out.failures.len()));
+    cov.insert("failing_cases_total".into(), json!(out.failures.iter().map(|f| f.count.max(1)).sum::<usize>()));
     cov.insert("failure_signatures".into(), json!(groups.len()));
     cov.insert("violation_records".into(), json!(vio_records.iter().take(50).collect::<Vec<_>>()));
     for (k, v) in &c.extra {
@@ -287,7 +294,7 @@ pub fn finish(out: Outcome, example_still_fails: &dyn Fn(&KnownFinding) -> bool)
         c.evaluations,
         c.distinct_nontrivial,
         c.exhaustive,
-        out.failures.len(),
+        out.failures.iter().map(|f| f.count.max(1)).sum::<usize>(),
         groups.len(),
         groups.len() - violations.len(),
         violations.len(),
@@ -303,7 +310,7 @@ pub fn finish(out: Outcome, example_still_fails: &dyn Fn(&KnownFinding) -> bool)
 /// Triage output: failure signatures with counts and one example each (never writes known_findings.json).
 pub fn triage(failures: &[Failure]) {
     let groups = group(failures);
-    println!("== {} failing cases, {} signatures", failures.len(), groups.len());
+    println!("== {} failing cases, {} signatures", failures.iter().map(|f| f.count.max(1)).sum::<usize>(), groups.len());
     for (sig, (f, n)) in &groups {
         println!("{n:6}  {sig}");
         println!("        input={} cfg={}", esc(&f.input), f.cfg.as_ref().map(|c| c.show()).unwrap_or_default());
